@@ -197,6 +197,8 @@ class App:
         return meta_block(items)
 
     def tree(self):
+        if getattr(self, "static", False):
+            return "static"
         out = []
         for lv in self.levels:
             items = []
@@ -1031,4 +1033,85 @@ def states_equal(ref, sa, sb):
             continue
         if len(sa[i]) != len(sb[i]) or not all(feq(fp.leaf.kind, a, b) for a, b in zip(sa[i], sb[i])):
             return "%s is %r in the saved instance and %r after loading" % (fp.path, sa[i], sb[i])
+    return None
+
+# ---------------------------------------------------------------------------
+# the macro-made application of harness/h_C12_app.h (tree description "static"),
+# described by hand: what the port-sugar macros are documented to produce
+def _sleaf(kind, name, default, n=1, **kw):
+    fid = {"i": "i0", "o": "o0", "f": "f0", "t": "t0", "ai": "ai"}[kind]
+    p = Leaf(fid, name, n)
+    p.default = list(default)
+    for k, v in kw.items():
+        setattr(p, k, v)
+    return p
+
+def static_app():
+    app = App()
+    app.static = True
+    l0, l1 = app.levels[0], app.levels[1]
+    opts = [(i, s) for i, s in enumerate(["oa", "ob", "oc", "od", "oe", "og", "oh", "oi", "oj", "ok"])]
+    l0.ports = [
+        _sleaf("i", "m0", [10]),
+        _sleaf("i", "m1", [11], rdepends=["m0"]),
+        _sleaf("i", "m2", [12], rdepends=["m0", "m1"]),
+        _sleaf("i", "m3", [13], rdepends=["m2", "m1", "m0"]),
+        _sleaf("i", "m4", [14], rdepends=["m0", "m1", "m2", "m3"], min=-100, max=100),
+        _sleaf("i", "m5", [15], rdepends=["m4", "m3", "m2", "m1", "m0"]),
+        _sleaf("i", "m6", [16], rdepends=["m5", "m4", "m3", "m2", "m1", "m0"]),
+        _sleaf("o", "mo", [0], opts=opts),
+        _sleaf("i", "mp", [29], depends="mo", presets={0: [20], 1: [21], 2: [22], 3: [23], 4: [24]}),
+        _sleaf("i", "mq", [30], depends="mo", presets={2: [32], 3: [33], 4: [34], 5: [35]},
+               rdepends=["mp", "m0", "m1", "m6"]),
+        _sleaf("f", "mf", [f2b(0.5)], min=f2b(-1.5), max=f2b(2.5)),
+        _sleaf("t", "mt", [0]),
+        _sleaf("ai", "ma", [3, 3, 3, 3], n=4),
+    ]
+    l0.selector = "o0"
+    c = Child("sub", "ms")
+    c.enabled_by = "mt"
+    l0.ports.append(c)
+    l1.ports = [_sleaf("i", "sa", [1]), _sleaf("i", "sb", [2], rdepends=["sa"])]
+    return app
+
+def static_macro_ports():
+    """(name, metadata block) of every port of the macro-made tables, in table order"""
+    P, D = ("parameter", None), ("documentation", "d")
+    def dep(*xs):
+        return ("depends", "".join(x + "," for x in xs))
+    out = [
+        ("m0::i", [P, ("default", "10"), D]),
+        ("m1::i", [P, ("default", "11"), dep("m0"), D]),
+        ("m2::i", [P, dep("m0", "m1"), ("default", "12"), D]),
+        ("m3::i", [P, ("default", "13"), dep("m2", "m1", "m0"), D]),
+        ("m4::i", [P, ("min", "-100"), ("max", "100"), ("scale", "linear"), ("default", "14"), dep("m0", "m1", "m2", "m3"), D]),
+        ("m5::i", [P, ("default", "15"), dep("m4", "m3", "m2", "m1", "m0"), D]),
+        ("m6::i", [P, ("default", "16"), dep("m5", "m4", "m3", "m2", "m1", "m0"), D]),
+        ("mo::i:c:S", [P, ("enumerated", None)] +
+         [("map %d" % i, s) for i, s in enumerate(["oa", "ob", "oc", "od", "oe", "og", "oh", "oi", "oj", "ok"])] +
+         [("default", "oa"), D]),
+        ("mp::i", [P, ("default depends", "mo")] + [("default %d" % i, "%d" % (20 + i)) for i in range(5)] + [("default", "29"), D]),
+        ("mq::i", [P, ("default depends", "mo")] + [("default %d" % i, "%d" % (30 + i)) for i in range(2, 6)] +
+         [("default", "30"), dep("mp", "m0", "m1", "m6"), D]),
+        ("mf::f", [P, ("min", "-1.5"), ("max", "2.5"), ("scale", "linear"), ("default", "0.5"), D]),
+        ("mt::T:F", [P, ("default", "false"), D]),
+        ("ma#4::i", [P, ("default", "[4x3]"), D]),
+        ("ms/", [("enabled by", "mt"), D]),
+        ("ms:", [("internal", None), ("documentation", "get obj pointer")]),
+        ("sa::i", [P, ("default", "1"), D]),
+        ("sb::i", [P, ("default", "2"), dep("sa"), D]),
+    ]
+    return [(n, meta_block(items)) for n, items in out]
+
+def macro_cases():
+    return ["macro %d %s %s" % (k, hx(n), hx(m)) for k, (n, m) in enumerate(static_macro_ports())]
+
+def macro_check(case, impl):
+    f = case.split(" ")
+    want = "name=%s meta=%s" % (f[2], f[3])
+    if impl != want:
+        kv = kv_fields(impl)
+        got = bytes.fromhex(kv.get("meta", "")) if kv.get("meta", "-") != "-" else b""
+        return "macros: port %s: the macros produced %r, their documentation calls for %r" % (
+            bytes.fromhex(f[2]).decode("latin-1"), got, bytes.fromhex(f[3]))
     return None
